@@ -194,3 +194,92 @@ theorem C04_resource_constraints (cfg : Config) (st : State) (ρ : Env) (hρ : S
   exact C10_constraint_part cfg st ρ hρ c hc hop
 
 end PS
+namespace PS
+open List
+
+/-! ### ResourcePeriodicallyUnavailable: the window of the task's own period -/
+
+/-- the busy interval is exempt: the repetition is not active where it lies -/
+def PeriodicMasked (ρ : Env) (b : BusyRef) (start : Int) (end_ : Option Int) : Prop :=
+  (0 < start ∧ b.eV ρ ≤ start) ∨ (∃ en, end_ = some en ∧ en ≤ b.sV ρ)
+
+/-- **C04 (ResourcePeriodicallyUnavailable, own period).**  For every busy interval `[s, e]` of the
+    resource and every listed window `(lo, hi)`, with `k = (s − offset) div period` the period the
+    interval starts in: unless the interval is masked by `start` / `end`, it does not overlap the
+    `k`-th repetition `(lo + offset + k·period, hi + offset + k·period)` of the window.
+    (That it may run into the repetition of the *next* period is finding F13.) -/
+theorem C04_periodic_own_period (c : Nat) (busy : List BusyRef) (ivs : List (Int × Int))
+    (period start offset : Int) (end_ : Option Int) (ρ : Env)
+    (h : Sat ρ ((CBody.periodicallyUnavailable busy ivs period start offset end_).raw c)) :
+    ∀ b ∈ busy, ∀ iv ∈ ivs, ¬ PeriodicMasked ρ b start end_ →
+      let k := (b.sV ρ - offset) / period
+      iv.2 + offset + period * k ≤ b.sV ρ ∨ b.eV ρ ≤ iv.1 + offset + period * k := by
+  intro b hb iv hiv hmask k
+  have hf := h (periodicOne b iv period start offset end_) (by
+    simp only [CBody.raw, List.mem_flatMap, List.mem_map]
+    exact ⟨iv, hiv, b, hb, rfl⟩)
+  have hdecomp := Int.emod_add_mul_ediv (b.sV ρ - offset) period
+  -- the core disjunction
+  have hcore : (periodicCore b iv period offset).eval ρ →
+      iv.2 + offset + period * k ≤ b.sV ρ ∨ b.eV ρ ≤ iv.1 + offset + period * k := by
+    intro hx
+    simp only [periodicCore, Fml.eval, Term.eval, numT] at hx
+    have hs : b.s.eval ρ = b.sV ρ := rfl
+    have he : b.e.eval ρ = b.eV ρ := rfl
+    rw [hs, he] at hx
+    generalize hfold : (b.sV ρ - offset) % period = f at hx hdecomp
+    have hk : period * k = b.sV ρ - offset - f := by
+      show period * ((b.sV ρ - offset) / period) = _
+      omega
+    by_cases h1 : iv.2 ≤ f
+    · left; omega
+    · right
+      have h2 : f + (b.eV ρ - b.sV ρ) ≤ iv.1 := by
+        by_contra h2
+        exact hx ⟨fun a => absurd a h1, fun a => absurd a h2⟩
+      omega
+  unfold periodicOne at hf
+  by_cases hlen : (periodicMasks b start end_).length > 0
+  · rw [if_pos hlen] at hf
+    simp only [Fml.eval, Fml.evalAny] at hf
+    rcases hf with hf | hf
+    · exact hcore hf
+    · exfalso
+      rw [evalAny_iff] at hf
+      obtain ⟨a, ha, hae⟩ := hf
+      simp only [periodicMasks, List.mem_append] at ha
+      rcases ha with ha | ha
+      · by_cases hs : start > 0
+        · simp only [hs, if_true, List.mem_singleton] at ha
+          subst ha
+          apply hmask
+          left
+          simp only [Fml.eval, Term.eval, numT] at hae
+          exact ⟨hs, hae⟩
+        · simp [hs] at ha
+      · cases hen : end_ with
+        | none => simp [hen] at ha
+        | some en =>
+            simp only [hen, List.mem_singleton] at ha
+            subst ha
+            apply hmask
+            right
+            simp only [Fml.eval, Term.eval, numT] at hae
+            exact ⟨en, hen, hae⟩
+  · rw [if_neg hlen] at hf
+    exact hcore hf
+
+/-- lifted to `initialize` -/
+theorem C04_periodic_enforced (cfg : Config) (st : State) (ρ : Env) (hρ : Sat ρ (initFmls cfg st))
+    (cst : Constr) (he : Enforced st cst) (busy : List BusyRef) (ivs : List (Int × Int))
+    (period start offset : Int) (end_ : Option Int)
+    (hb : cst.body = .periodicallyUnavailable busy ivs period start offset end_) :
+    ∀ b ∈ busy, ∀ iv ∈ ivs, ¬ PeriodicMasked ρ b start end_ →
+      iv.2 + offset + period * ((b.sV ρ - offset) / period) ≤ b.sV ρ ∨
+      b.eV ρ ≤ iv.1 + offset + period * ((b.sV ρ - offset) / period) := by
+  obtain ⟨hc, hopt, hop⟩ := he
+  apply C04_periodic_own_period cst.id busy ivs period start offset end_ ρ
+  rw [← hb, ← C10_mandatory cst hopt]
+  exact C10_constraint_part cfg st ρ hρ cst hc hop
+
+end PS
